@@ -17,6 +17,8 @@ pub const OCTETS: [u8; 15] = [
 pub const QUICK12: [u8; 12] = [0x00, b'.', b'@', b'A', b'Z', b'[', b'`', b'a', b'z', b'{', 0x80, 0xff];
 /// 9-octet sub-alphabet (used where the full alphabet is too large).
 pub const SUB9: [u8; 9] = [0x00, b'.', b'A', b'Z', b'[', b'a', b'z', 0x80, 0xff];
+/// 7-octet sub-alphabet: the absolute+relative universe U2 of the quick tier.
+pub const SUB7: [u8; 7] = [0x00, b'.', b'A', b'Z', b'[', b'a', 0xff];
 /// 5-octet sub-alphabet for the 3-label universe of the thorough tier.
 pub const SUB5: [u8; 5] = [0x00, b'A', b'[', b'a', 0xff];
 
